@@ -16,7 +16,15 @@ Qed.
 
 Definition w_one : forest := [("f", File m0 (LReg 1 1) None)].
 
-(* an error of Stat/ReadDir of the root is dropped: nothing is yielded, no error *)
-Lemma fault_root_swallowed :
-  walk_faulty env_nohdr w_one FErrRoot = Ok [] /\ walk env_nohdr w_one <> [] /\ validate [] [] w_one [] <> [].
-Proof. split; [reflexivity|]. split; [discriminate | vm_compute; discriminate]. Qed.
+(* an error of Stat/ReadDir of the root: reported when the callback tests the
+   error before it skips ".", dropped (nothing yielded, no error) when it tests it
+   after — stated for both orders so that the repair of C06-F6 keeps it provable *)
+Lemma fault_root :
+  if c06_root_err_checked
+  then forall ev f, walk_faulty ev f FErrRoot = Err
+  else walk_faulty env_nohdr w_one FErrRoot = Ok [] /\ walk env_nohdr w_one <> [] /\ validate [] [] w_one [] <> [].
+Proof.
+  unfold walk_faulty, walk_under_fault. destruct c06_root_err_checked.
+  - intros. reflexivity.
+  - split; [reflexivity|]. split; [discriminate | vm_compute; discriminate].
+Qed.
